@@ -13,6 +13,7 @@ from .. import dbrig, evocases, evorig, sigs
 F_COMMIT = 'F9'
 F_BOOK = 'F38'
 F_SUBTX = 'F39'
+F_CLASSES = 'F65'
 
 
 def fault_free(case, seed):
@@ -76,6 +77,82 @@ def one_fault(case, k):
     rep['retry'] = r2[0]
     final = evorig.snapshot() if r2[0] == 'ok' else None
     return rep, problems, final, (None if r2[0] == 'ok' else '%s: %s' % (type(r2[1]).__name__, str(r2[1])[:160]))
+
+
+def purge_fault_cases(ctx):
+    """an upgrade that also purges an app that is no longer installed (two task classes in one run), with a fault at
+    every statement of the purge: whatever the first class had done, no evolution may be recorded, the stored
+    signature and the number of versions stay as they were, and a fault-free retry still purges the app"""
+    import random
+    from .c15 import add_stale, owned_tables
+    done = tries = 0
+    while done < 2 and tries < 10 and ctx.time_left() > 40:
+        tries += 1
+        case = evocases.gen_upgrade(random.Random(ctx.seed * 71 + tries))
+        if case is None:
+            continue
+        seed = ctx.seed * 73 + tries
+        try:
+            evocases.prepare_v0(case, seed)
+        except Exception:
+            continue
+        stale = add_stale(random.Random(seed), seed, case['spec0'])
+        if stale is None:
+            continue
+        tables = owned_tables(stale)
+        evocases.save_db('p0')
+        evocases.install_v1(case)
+        r = evorig.run_evolver(purge=True)
+        if r[0] != 'ok':
+            continue
+        writes = r[2].write_statements()
+        ref = evorig.snapshot()
+        purge_idx = [i for i, w in enumerate(writes) if w.startswith('DROP TABLE') and any('"%s"' % t in w for t in tables)]
+        if not purge_idx:
+            continue
+        done += 1
+        for k in purge_idx:
+            if ctx.time_left() < 25:
+                return
+            evocases.restore_db('p0')
+            evocases.install_v1(case)
+            before = evorig.snapshot()
+            tr = evorig.Trace(fail_at=k)
+            rk = evorig.run_evolver(trace=tr, purge=True)
+            after = evorig.snapshot()
+            rep = {'scenario': 'upgrade + purge of a stale app in one run, fault in the purge', 'spec0': case['spec0'],
+                   'mutations': case['muts'], 'stale_tables': tables, 'k': k, 'failed_sql': tr.failed_sql, 'seed': seed}
+            ctx.count('purge_fault_runs')
+            ctx.case({'scenario': 'purge fault', 'k': k, 'statement': (tr.failed_sql or '')[:60],
+                      'mutations': [sigs.model_mutation(m) for m in case['muts']]}, nontrivial=True, sample_cap=3)
+            if rk[0] != 'error':
+                ctx.fail(None, 'the injected failure in the purge was swallowed', rep)
+                continue
+            kept = [key for key in ('evolutions', 'versions', 'sig') if before[key] != after[key]]
+            if kept:
+                ctx.fail(None, 'the purge failed at %r, yet the run left its records behind: %s changed'
+                         % ((tr.failed_sql or '')[:50], kept), rep)
+            # what the first task class (the evolutions) did is committed before the purge starts: the separate
+            # transactions of finding F39, at the level of task classes - a retry then meets its own leftovers
+            changed_all = [key for key in before if before[key] != after[key]]
+            committed_first_class = bool(changed_all) and set(changed_all) <= {'schema', 'rows', 'content_types'} and \
+                all(t in after['schema'] for t in tables)
+            r2 = evorig.run_evolver(purge=True)
+            if r2[0] != 'ok':
+                what = 'the fault-free retry of upgrade + purge does not complete: %s' % str(r2[1])[:120]
+                if committed_first_class:
+                    ctx.fail(F_CLASSES, 'the evolutions of the run were committed before its purge failed: ' + what,
+                             dict(rep, what=what, changed=changed_all))
+                else:
+                    ctx.fail(None, what, rep)
+            else:
+                fin = evorig.snapshot()
+                left = [t for t in tables if t in fin['schema']]
+                if left:
+                    ctx.fail(None, 'after the retry the tables %s of the stale app are still there (the uninterrupted run '
+                             'removes them)' % left, rep)
+                elif strip_versions(fin)['evolutions'] != strip_versions(ref)['evolutions'] or fin['sig'] != ref['sig']:
+                    ctx.fail(None, 'the retry of upgrade + purge ends with other records than the uninterrupted run', rep)
 
 
 def is_bookkeeping(sql):
@@ -174,6 +251,7 @@ def run(ctx):
             elif strip_versions(final) != strip_versions(ff['snapshot']):
                 diff = [key for key in strip_versions(final) if strip_versions(final)[key] != strip_versions(ff['snapshot'])[key]]
                 ctx.fail(None, 'the retry ends in a different state than the uninterrupted run: %s' % diff, rep)
+    purge_fault_cases(ctx)
     if book_witness is not None:
         ctx.fail(F_BOOK, 'the version/evolution records are written outside the evolution\'s transaction: a failure '
                  'there leaves the evolved schema without its records', book_witness)
